@@ -95,7 +95,7 @@ def _refs():
 
     return dict(SM=StatemachineContext, ir=ir, ctx=_context, P=_Prefix, sctx=sctx, H=StdExceptionHandler, pa=pa,
                 IG=IrGenerator, ret0=IrGenerator.returned_blocks, brk0=IrGenerator._break_result,
-                cont0=IrGenerator._continue_result)
+                cont0=IrGenerator._continue_result, static={})
 
 
 def _snapshot(r, classes):
@@ -120,6 +120,18 @@ def _snapshot(r, classes):
     s = " ".join(f"{k}={v}" for k, v in f.items())
     s += " pfxs=" + ",".join(p._prefix for p in r["P"]._prefix_scope)
     s += " inst=" + ".".join(str(c) for c in inst) + " reg= inl=" + ".".join("1" for _ in pa._inline_declared_entities)
+    # per-class state: ports added while an architecture ran (kept on the class until its next elaboration) and
+    # the snapshot `non_dynamic_ports` (must be exactly the statically declared ports, or None)
+    dyn, ndp = [], []
+    for code, cls in classes.items():
+        info = cls._cohdl_info
+        static = r["static"][code]
+        dyn += [f"{code}:{p}" for p in info.ports if p not in static]
+        if info.non_dynamic_ports is not None and set(info.non_dynamic_ports) != set(static):
+            ndp.append(code)
+        if [p for p in static if p not in info.ports]:
+            ndp.append(code + ":lost-static-port")
+    s += " dyn=" + ",".join(sorted(dyn)) + " ndp=" + ",".join(sorted(ndp))
     return s
 
 
@@ -131,6 +143,8 @@ def _err_class(e):
         return "convActive"
     if "wait_for can only infer the clock" in m:
         return "noCtx"
+    if "already exists" in m and m.lstrip().startswith("port "):
+        return "portExists"
     return "crash"
 
 
@@ -176,11 +190,16 @@ def history_task(item):
     mods, classes = {}, {}
     out = []
     for name in hist:
-        if name not in mods:
-            mods[name] = load_design_module(POOL[name][0], tag=name)
-            for cname, cls in _entity_codes(0, mods[name]).items():
-                classes[f"{name}/{cname}"] = cls
-        E = mods[name].E
+        bname, _, cfg = name.partition("@")
+        if bname not in mods:
+            mods[bname] = load_design_module(POOL[name][0], tag=bname)
+            for cname, cls in _entity_codes(0, mods[bname]).items():
+                classes[f"{bname}/{cname}"] = cls
+                r["static"][f"{bname}/{cname}"] = list(cls._cohdl_info.ports)
+        if hasattr(mods[bname], "configure"):
+            # same module, same entity class objects: only the module-level flags / class attributes change
+            mods[bname].configure(**eval(f"dict({cfg})"))
+        E = mods[bname].E
         buf = io.StringIO()
         try:
             with contextlib.redirect_stdout(buf), contextlib.redirect_stderr(buf):
@@ -203,6 +222,8 @@ spec = importlib.util.spec_from_file_location("cv_sub_design", sys.argv[2])
 m = importlib.util.module_from_spec(spec)
 sys.modules["cv_sub_design"] = m
 spec.loader.exec_module(m)
+if hasattr(m, "configure"):
+    m.configure(**eval("dict(" + sys.argv[3] + ")"))
 import io, contextlib
 buf = io.StringIO()
 try:
@@ -220,9 +241,10 @@ def seed_task(item):
     d = scratch_dir() / f"sub_{os.getpid()}"
     d.mkdir(exist_ok=True)
     (d / "runner.py").write_text(RUNNER)
-    (d / f"{name}.py").write_text(POOL[name][0])
+    bname, _, cfg = name.partition("@")
+    (d / f"{bname}.py").write_text(POOL[name][0])
     env = dict(os.environ, PYTHONHASHSEED=str(seed))
-    p = subprocess.run([sys.executable, str(d / "runner.py"), str(REPO), str(d / f"{name}.py")], capture_output=True,
+    p = subprocess.run([sys.executable, str(d / "runner.py"), str(REPO), str(d / f"{bname}.py"), cfg], capture_output=True,
                        text=True, env=env, timeout=300)
     if p.returncode != 0 or not p.stdout:
         raise InfraError(f"subprocess for {name} seed {seed} failed: {p.stderr[-500:]}")
@@ -242,8 +264,8 @@ class Codes:
         for name in POOL:
             for tok in POOL[name][3].split():
                 if tok.startswith("<arch:"):
-                    self.ents.setdefault(f"{name}/{tok[6:]}", len(self.ents) + 1)
-                for pre in ("<pfx:", "N:"):
+                    self.ents.setdefault(f"{name.partition('@')[0]}/{tok[6:]}", len(self.ents) + 1)
+                for pre in ("<pfx:", "N:", "A:"):
                     if tok.startswith(pre):
                         self.names.setdefault(tok[len(pre):], len(self.names) + 1)
         self.name_of = {v: k for k, v in self.names.items()}
@@ -253,11 +275,13 @@ class Codes:
         out = []
         for tok in POOL[name][3].split():
             if tok.startswith("<arch:"):
-                tok = f"<arch:{self.ents[name + '/' + tok[6:]]}"
+                tok = f"<arch:{self.ents[name.partition('@')[0] + '/' + tok[6:]]}"
             elif tok.startswith("<pfx:"):
                 tok = f"<pfx:{self.names[tok[5:]]}"
             elif tok.startswith("N:"):
                 tok = f"N:{self.names[tok[2:]]}"
+            elif tok.startswith("A:"):
+                tok = f"A:{self.names[tok[2:]]}"
             out.append(tok)
         return " ".join(out)
 
@@ -273,8 +297,10 @@ class Codes:
                              for p in v.split(",") if p)
             elif k == "inst":
                 v = ".".join(sorted((self.ent_of[int(c)] for c in v.split(".") if c)))
+            elif k == "dyn":
+                v = ",".join(sorted(f"{self.ent_of[int(q.split(':')[0])]}:{self.name_of[int(q.split(':')[1])]}" for q in v.split(",") if q))
             out.append(f"{k}={v}")
-        return " ".join(out)
+        return " ".join(out) + " ndp="
 
     def canon_real(self, snap):
         out = []
@@ -380,11 +406,14 @@ def first_line_diff(a, b):
 def run(ctx: Ctx):
     rng = ctx.rng
     codes = Codes()
-    ctx.rule = ("histories = sequences of compilations over a pool of 12 accepted and 17 rejected designs (each rejected "
+    ctx.rule = (f"histories = sequences of compilations over a pool of {len(ACCEPTED)} accepted and {len(REJECTED)} rejected designs (each rejected "
                 "design crashes at a different point: architecture, tracing inside sequential context / prefix scope / "
                 "always / nested call / handler scope / inline entity, IR generation inside state machine+loop(+call), "
-                "usage check), all in one process; every ordered pair [rejected, X, X] and [accepted, X] plus random "
-                "histories; non-trivial = history contains a rejected design before an accepted one; distinct = distinct history")
+                "usage check; `name@K=V` = the same entity class re-configured by module-level flags: dynamic ports "
+                "(std.add_entity_port) present/absent/more, rejected after the ports were added, class attributes changed), "
+                "all in one process; [X, X] for every design, every [rejected, X, X], every [v1, v2, v1] over the "
+                "configurations of one class, [accepted, X] and random histories; non-trivial = history contains a rejected "
+                "design before an accepted one or two different configurations of one class; distinct = distinct history")
 
     # ---- baseline: every design alone in a fresh process (twice: repeated compile)
     singles = [[n, n] for n in POOL]
@@ -405,14 +434,23 @@ def run(ctx: Ctx):
     # ---- histories (the parent is warmed up now: the one-time source parsing of the std library is not repeated in
     # every child; the baseline above was taken from the pristine interpreter)
     warm_parent()
-    hists = [[n, n] for n in POOL]
-    second = POOL if not ctx.quick else ACCEPTED + ["r_trace_noctx"]
+    hists = []
+    second = list(POOL) if not ctx.quick else [a for a in ACCEPTED if "@" not in a] + ["r_trace_noctx"]
     for r in REJECTED:
         for x in second:
             hists.append([r, x, x])
+    # per-class state: every ordered pair of configurations of the SAME entity class (flags toggled between the
+    # compilations: dynamic ports present / absent / more, rejected in the architecture or in tracing after the ports
+    # were added, class attributes changed), as [v1, v2, v1] (includes [v, v, v])
+    groups = {}
+    for n in POOL:
+        groups.setdefault(n.partition("@")[0], []).append(n)
+    for vs in groups.values():
+        if len(vs) > 1:
+            hists += [[v1, v2, v1] for v1 in vs for v2 in vs]
     pairs = [[a, x] for a in ACCEPTED for x in POOL if x != a]
-    hists += pairs if not ctx.quick else rng.sample(pairs, 40)
-    n_rand = ctx.scale(40, 600)
+    hists += pairs if not ctx.quick else rng.sample(pairs, 30)
+    n_rand = ctx.scale(30, 600)
     max_len = ctx.scale(6, 12)
     names = list(POOL)
     for _ in range(n_rand):
@@ -420,16 +458,19 @@ def run(ctx: Ctx):
         hists.append([rng.choice(names) for _ in range(k)])
     seen, uniq = set(), []
     for h in hists:
-        if tuple(h) not in seen:
+        if tuple(h) not in seen and h not in singles:
             seen.add(tuple(h))
             uniq.append(h)
-    hists = uniq
-    real = real_histories(hists)
+    # the pristine [n, n] runs of the baseline are part of the checked histories (same class compiled twice, for
+    # every design of the pool, against its own first compile)
+    real = base_runs + real_histories(uniq)
+    hists = singles + uniq
 
     # ---- (b) the property: verdict and bytes after every history prefix = fresh baseline
     found = {}
     for h, steps in zip(hists, real):
-        nontrivial = any(POOL[x][1] == "reject" for x in h[:-1]) and any(POOL[x][1] == "ok" for x in h[1:])
+        nontrivial = (any(POOL[x][1] == "reject" for x in h[:-1]) and any(POOL[x][1] == "ok" for x in h[1:])) or \
+            len({x for x in h if "@" in x or x in groups and len(groups[x]) > 1}) > 1
         ctx.case(key=">".join(h), nontrivial=nontrivial, kind=f"len={len(h)}",
                  sample={"history": h, "verdicts": [s[0] for s in steps]})
         for x in h:
@@ -524,7 +565,8 @@ def run(ctx: Ctx):
 
     # ---- fresh interpreters under different hash seeds
     seeds = ["0", "1", "2", "random"] if ctx.quick else ["0", "1", "2", "3", "4", "5", "random", "random"]
-    tasks = [(n, s) for n in ACCEPTED for s in seeds]
+    seed_designs = [n for n in ACCEPTED if "@" not in n] if ctx.quick else ACCEPTED
+    tasks = [(n, s) for n in seed_designs for s in seeds]
     res = fork_map(seed_task, tasks, fresh=False)
     seed_bad = 0
     by_design = {}
@@ -546,9 +588,11 @@ def run(ctx: Ctx):
                    detail=f"{len(tasks)} subprocess compilations")
 
     # ---- perturbed allocation
-    pert = real_histories([[n] for n in ACCEPTED], perturb=3) + real_histories([[n] for n in ACCEPTED], perturb=11)
+    pert_designs = [n for n in ACCEPTED if "@" not in n] if ctx.quick else ACCEPTED + ACCEPTED
+    pert = real_histories([[n] for n in pert_designs[:len(ACCEPTED)]], perturb=3) + \
+        real_histories([[n] for n in pert_designs[len(ACCEPTED):]], perturb=11)
     pert_bad = 0
-    for n, steps in zip(ACCEPTED + ACCEPTED, pert):
+    for n, steps in zip(pert_designs, pert):
         ctx.case(key=f"alloc:{n}", nontrivial=False, kind="perturbed-allocation")
         eff = effect(base[n], steps[0])
         if eff is not None:
